@@ -677,6 +677,8 @@ package rockredis
 //@   trusted reads the collection meta through the engine; an expired or absent collection starts a new generation with no meta
 //@   ensures result1 == nil ==> result0.OldHeader != nil && (result0.OldHeader.Ver == 0 || result0.OldHeader.Ver == 1) && smallTK(result0.Table, result0.VerKey)
 //@   ensures result1 == nil && (dt == SetType || dt == ZSetType) ==> (len(result0.OldHeader.UserData) == 0 || len(result0.OldHeader.UserData) >= 8) && setSize(result0.OldHeader.UserData) >= 0 && setSize(result0.OldHeader.UserData) < 4611686018427387904
+//@   ensures result1 == nil && dt == ListType ==> (len(result0.OldHeader.UserData) == 0 || len(result0.OldHeader.UserData) >= 16) && ghost(lphead, db) == lmHead(result0.OldHeader.UserData) && ghost(lptail, db) == lmTail(result0.OldHeader.UserData) && ghost(lpsize, db) == ite(len(result0.OldHeader.UserData) == 0, 0, ghost(lptail, db) - ghost(lphead, db) + 1)
+//@   ensures result1 == nil && dt == ListType && len(result0.OldHeader.UserData) >= 16 ==> ghost(lpsize, db) >= 1 && ghost(lphead, db) > listMinSeq && ghost(lptail, db) < listMaxSeq
 //@   ensures result1 != errTooMuchBatchSize
 //@ func (db *RockDB) GetCollVersionKey(ts int64, dt byte, key []byte, useLock bool) (collVerKeyInfo, error)
 //@   trusted reads the collection meta from the store
@@ -844,3 +846,41 @@ package rockredis
 //@   loop 1
 //@   invariant 0 <= i && i <= len(members) && num == ghost(hits, db) - old(ghost(hits, db)) && num >= 0 && num <= i && ghost(wbdels, wb) == 2 * num && ghost(wbputs, wb) == 0
 //@   invariant (len(keyInfo.OldHeader.UserData) == 0 || len(keyInfo.OldHeader.UserData) >= 8) && setSize(keyInfo.OldHeader.UserData) >= 0 && setSize(keyInfo.OldHeader.UserData) < 4611686018427387904
+
+//@ property C08 C09
+// ---- lists: meta = (head, tail, modify time); element seq keys; size = tail - head + 1 ----
+//@ spec lmHead(b []byte) int = ite(len(b) == 0, listInitialSeq, toI64(be64(b, 0)))
+//@ spec lmTail(b []byte) int = ite(len(b) == 0, listInitialSeq, toI64(be64(b, 8)))
+//@ func parseListMeta(v []byte) (headSeq int64, tailSeq int64, size int64, ts int64, err error)
+//@   requires len(v) >= 16 ==> lmTail(v) - lmHead(v) > -4611686018427387904 && lmTail(v) - lmHead(v) < 4611686018427387904
+//@   ensures err == nil <==> (len(v) == 0 || len(v) >= 16)
+//@   ensures err == nil ==> headSeq == lmHead(v) && tailSeq == lmTail(v) && size == ite(len(v) == 0, 0, tailSeq - headSeq + 1)
+//@   ensures err != errTooMuchBatchSize
+
+// LPUSH / RPUSH: the reply is old size + pushed; the new meta extends exactly pushed positions at the chosen end;
+// every element is buffered once; nothing is written when a position is already occupied
+//@ func (db *RockDB) lpush(ts int64, key []byte, whereSeq int64, args ...[]byte) (int64, error)
+//@   requires db != nil && db.wb != nil && ghost(wbputs, db.wb) == 0 && ghost(wbdels, db.wb) == 0 && (whereSeq == listHeadSeq || whereSeq == listTailSeq)
+//@   ensures result1 == nil && len(args) > 0 ==> result0 == ghost(lpsize, db) + len(args)
+//@   ensures result1 == nil && len(args) > 0 ==> ghost(lmsets, db) == old(ghost(lmsets, db)) + 1 && ghost(lmtail, db) - ghost(lmhead, db) + 1 == ghost(lpsize, db) + len(args)
+//@   ensures result1 == nil && len(args) > 0 && whereSeq == listHeadSeq ==> ghost(lmtail, db) == ghost(lptail, db) && ghost(lmhead, db) == ghost(lphead, db) - len(args) + ite(ghost(lpsize, db) == 0, 1, 0)
+//@   ensures result1 == nil && len(args) > 0 && whereSeq == listTailSeq ==> ghost(lmhead, db) == ghost(lphead, db) && ghost(lmtail, db) == ghost(lptail, db) + len(args) - ite(ghost(lpsize, db) == 0, 1, 0)
+//@   ensures result1 == nil && len(args) > 0 ==> ghost(commits, db.rockEng) == old(ghost(commits, db.rockEng)) + 1 && ghost(cputs, db.rockEng) == len(args) + 1 && ghost(cdels, db.rockEng) == 0
+//@   ensures len(args) == 0 && result1 == nil ==> result0 == ghost(lpsize, db) && ghost(commits, db.rockEng) == old(ghost(commits, db.rockEng))
+//@   ensures ghost(wbputs, db.wb) == 0 && ghost(wbdels, db.wb) == 0
+//@   modifies ghost(wbputs, _), ghost(wbdels, _), ghost(wbver, _), ghost(commits, _), ghost(cputs, _), ghost(cdels, _), ghost(misses, db), ghost(hits, db), ghost(lmhead, db), ghost(lmtail, db), ghost(lmsets, db), ghost(tblcnt, db), alloftype(headerMetaValue)
+//@   loop 1
+//@   invariant 0 <= i && i <= pushCnt && pushCnt == len(args) && ghost(wbputs, wb) == i && ghost(wbdels, wb) == 0 && ghost(lmsets, db) == old(ghost(lmsets, db)) && ghost(commits, db.rockEng) == old(ghost(commits, db.rockEng))
+
+// LPOP / RPOP: the reply is the element at the head / tail position; the meta shrinks by exactly that position;
+// the element and (when the list becomes empty) the meta are deleted in the same engine write
+//@ func (db *RockDB) lpop(ts int64, key []byte, whereSeq int64) ([]byte, error)
+//@   requires db != nil && db.wb != nil && ghost(wbputs, db.wb) == 0 && ghost(wbdels, db.wb) == 0 && (whereSeq == listHeadSeq || whereSeq == listTailSeq)
+//@   ensures result1 == nil && result0 != nil ==> ghost(curexists, db) == 1 && ghost(lmsets, db) == old(ghost(lmsets, db)) + 1 && ghost(commits, db.rockEng) == old(ghost(commits, db.rockEng)) + 1
+//@   ensures result1 == nil && result0 != nil && whereSeq == listHeadSeq ==> ghost(lmhead, db) == ghost(curhead, db) + 1 && ghost(lmtail, db) == ghost(curhead, db) + ghost(curlen, db) - 1
+//@   ensures result1 == nil && result0 != nil && whereSeq == listTailSeq ==> ghost(lmhead, db) == ghost(curhead, db) && ghost(lmtail, db) == ghost(curhead, db) + ghost(curlen, db) - 2
+//@   ensures result1 == nil && result0 != nil ==> ghost(cdels, db.rockEng) == ite(ghost(curlen, db) == 1, 2, 1) && ghost(cputs, db.rockEng) == ite(ghost(curlen, db) == 1, 0, 1)
+//@   ensures result1 == nil && result0 == nil ==> ghost(commits, db.rockEng) == old(ghost(commits, db.rockEng))
+//@   ensures ghost(curexists, db) == 0 && 1 <= len(key) && len(key) <= MaxKeySize ==> result0 == nil && ghost(commits, db.rockEng) == old(ghost(commits, db.rockEng))
+//@   ensures ghost(wbputs, db.wb) == 0 && ghost(wbdels, db.wb) == 0
+//@   modifies ghost(wbputs, _), ghost(wbdels, _), ghost(wbver, _), ghost(commits, _), ghost(cputs, _), ghost(cdels, _), ghost(misses, db), ghost(hits, db), ghost(lmhead, db), ghost(lmtail, db), ghost(lmsets, db), ghost(tblcnt, db), ghost(expdels, _)
